@@ -302,6 +302,27 @@ def par_send_loop(self, data):
     invariant(events("layer.send") == self.sublayers[:loop_k()] and n_events("layer.receive") == 0)
 
 
+@contract(LAYERS, "YowParallelLayer.onEvent")
+def par_onEvent(self: Obj("YowParallelLayer"), yowLayerEvent: Opaque("event")):
+    # the members are asked in order, each with this event, until one consumes it (the later ones are then not asked any more); the
+    # group reports the event as consumed exactly when a member consumed it - whichever member it was, not just the last one
+    ensures(events("layer.onEvent") == self.sublayers[:n_events("layer.onEvent")])
+    ensures(forall(range(0, n_events("layer.onEvent")), lambda i: same_obj(event_arg("layer.onEvent", i, 1), yowLayerEvent)))
+    ensures(forall(range(0, n_events("layer.onEvent") - 1), lambda i: not truthy(event_result("layer.onEvent", i))))
+    ensures(truthy(result) == (n_events("layer.onEvent") >= 1 and truthy(event_result("layer.onEvent", n_events("layer.onEvent") - 1))))
+    ensures(implies(not truthy(result), n_events("layer.onEvent") == len(self.sublayers)))
+    propagates("layer.onEvent")
+
+
+@loop(LAYERS, "YowParallelLayer.onEvent", 1)
+def par_onEvent_loop(self, yowLayerEvent, stopEvent: Value("stop")):
+    invariant(events("layer.onEvent") == self.sublayers[:n_events("layer.onEvent")] and n_events("layer.onEvent") <= loop_k())
+    invariant(forall(range(0, n_events("layer.onEvent")), lambda i: same_obj(event_arg("layer.onEvent", i, 1), yowLayerEvent)))
+    invariant(forall(range(0, n_events("layer.onEvent") - 1), lambda i: not truthy(event_result("layer.onEvent", i))))
+    invariant(truthy(stopEvent) == (n_events("layer.onEvent") >= 1 and truthy(event_result("layer.onEvent", n_events("layer.onEvent") - 1))))
+    invariant(implies(not truthy(stopEvent), n_events("layer.onEvent") == loop_k()))
+
+
 # ---- a layer added on top of a constructed stack -------------------------------------------------------------------------------------
 event_sort("layer.setLayers", "obj")
 extern("*.setLayers", event="layer.setLayers")
